@@ -2,7 +2,7 @@
 import random
 import z3
 from .common import *  # noqa
-from vc.speclemmas import LIB
+from vc.speclemmas import LIB, checker_side_lib
 from vc.rsfe import RsProgram
 from vc.reflect import reflect_rs_bool_methods, rs_judgement_contracts
 from vc.rscontract import verify_rs_unit
@@ -30,7 +30,7 @@ def build(repo, tier):
     cs, hof, preds = inst_contracts(rsf)
     cs.update(rs_judgement_contracts(rsf))
     cs['read_u8_vec'] = ReadVecContract()
-    lib = dict(LIB)
+    lib = checker_side_lib()
     for l in equivalence_lemmas(rsf, preds):
         lib[l.name] = l
     units = lemma_units(lib)
